@@ -13,10 +13,14 @@ RULE = ('segments (families int/float/grid/collinear/coincident) x split paramet
         'ccw contours and random self-intersecting ones), Rectangle/Square/Ellipse/Circle for sizes 1..5000 and random origins, x rigid motions '
         'and scale factors; non-trivial = non-degenerate segment / path with non-zero area')
 NOT_PROVED = ['|signed_area - exact Green area| <= 10*length for curved closed paths (flattening error; measured)',
-              'positivity for every simple counter-clockwise contour (no formal notion of simple); ellipse/circle sign (measured)']
+              'positivity for EVERY simple counter-clockwise contour: proved for star-shaped (about any centre), fan, convex and ear-built polygons '
+              '(Proofs/C10pos.v) -- that every simple polygon is ear-built (two-ears theorem) is not formalised; for Ellipse/Circle the sign and the exact value '
+              '-K(s)*rx*ry of the Green area (-sum of the cubic areas) and of the control polygon are proved (Proofs/C10shapes.v), the sign of the flattened '
+              'signed_area of a curved contour is measured']
 ASSUMPTIONS = ['flatten()/regularSample produce on-curve vertices in order (C17, checked separately)']
 HAND_FINGERPRINTS = [('path/__init__.py', 'BezierPath.signed_area'), ('path/__init__.py', 'BezierPath.area'), ('path/__init__.py', 'BezierPath.direction'),
-                     ('path/geometricshapes.py', 'Rectangle')]
+                     ('path/geometricshapes.py', 'Rectangle'), ('path/geometricshapes.py', 'Ellipse'), ('path/geometricshapes.py', 'Circle'),
+                     ('path/geometricshapes.py', 'Square')]
 P = Point
 
 
@@ -59,9 +63,34 @@ def correspond(ctx):
         oo = o or P(0, 0)
         cases.append(f'(list_eqb seg2_feq (Rectangle_lines FOps {vlib.fhex(w)} {vlib.fhex(h)} {vlib.cpt(oo)}) {vlib.clist([vlib.cseg(s) for s in segs])} && feq (signed_area_lines FOps (Rectangle_lines FOps {vlib.fhex(w)} {vlib.fhex(h)} {vlib.cpt(oo)})) {vlib.fhex(r.signed_area)})')
         meta.append({'rectangle': [w, h, [oo.x, oo.y]], 'signed_area': r.signed_area})
-    r2 = vlib.run_case_files('C10', 'hand', ['Gen.Point', 'Gen.Line', 'Hand.Shoelace'], '', cases)
+    # hand model: the curved shape constructors (Hand/Shapes.v), bit for bit, incl. the keyword defaults
+    nrect = len(cases)
+    from beziers.path import geometricshapes as GS
+    cases.append(f'feq (circular_superness FOps) {vlib.fhex(GS.CIRCULAR_SUPERNESS)}'); meta.append({'constant': 'CIRCULAR_SUPERNESS'})
+    copt = lambda v, f: 'None' if v is None else f'(Some {f(v)})'
+    for _ in range(ctx.n(60, 1000)):
+        kind = rng.choice(['ellipse', 'ellipse', 'circle', 'square'])
+        size = lambda: rng.choice([float(rng.randint(1, 5000)), rng.uniform(0.5, 5000), rng.uniform(-50, 50), 0.0])
+        o = P(rng.uniform(-5000, 5000), rng.uniform(-5000, 5000)) if rng.random() < 0.75 else None
+        sup = rng.choice([None, None, rng.uniform(0.1, 1.2), 1.0, 0.0])
+        if kind == 'ellipse':
+            xr, yr = size(), size()
+            segs = (Ellipse(xr, yr, origin=o) if sup is None else Ellipse(xr, yr, origin=o, superness=sup)).asSegments()
+            cases.append(f'list_eqb seg4_feq (Ellipse_cubics_opt FOps {vlib.fhex(xr)} {vlib.fhex(yr)} {copt(o, vlib.cpt)} {copt(sup, vlib.fhex)}) {vlib.clist([vlib.cseg(x) for x in segs])}')
+            meta.append({'ellipse': [xr, yr, o and [o.x, o.y], sup]})
+        elif kind == 'circle':
+            xr = size()
+            segs = (Circle(xr, origin=o) if sup is None else Circle(xr, origin=o, superness=sup)).asSegments()
+            cases.append(f'list_eqb seg4_feq (Circle_cubics_opt FOps {vlib.fhex(xr)} {copt(o, vlib.cpt)} {copt(sup, vlib.fhex)}) {vlib.clist([vlib.cseg(x) for x in segs])}')
+            meta.append({'circle': [xr, o and [o.x, o.y], sup]})
+        else:
+            wd = size()
+            segs = Square(wd, origin=o).asSegments()
+            cases.append(f'list_eqb seg2_feq (Square_lines_opt FOps {vlib.fhex(wd)} {copt(o, vlib.cpt)}) {vlib.clist([vlib.cseg(x) for x in segs])}')
+            meta.append({'square': [wd, o and [o.x, o.y]]})
+    r2 = vlib.run_case_files('C10', 'hand', ['Gen.Point', 'Gen.Line', 'Hand.Shoelace', 'Hand.Shapes'], '', cases)
     out = {'n': res['n'] + r2['n'], 'agree': res['agree'] + r2['agree'], 'failing': res['failing'] + r2['failing'], 'errors': res['errors'] + r2['errors'],
-           'distribution': dict(res['distribution'], shoelace_and_rectangle=r2['n']), 'samples': res['samples'] + meta[:1], 'kinds': {'kernels': len(names), 'hand_models': 2}}
+           'distribution': dict(res['distribution'], shoelace_and_rectangle=nrect, shape_constructors=r2['n'] - nrect), 'samples': res['samples'] + meta[:1], 'kinds': {'kernels': len(names), 'hand_models': 3}}
     if r2['failing']: out['first_disagreement'] = [meta[i] for i in r2['failing'][:3]]
     elif res['failing']: out['first_disagreement'] = res.get('first_disagreement')
     return out
